@@ -244,6 +244,17 @@ pub fn run(rep: &mut Report, thorough: bool) {
                 _ => flow6(1, 1).ip_frame(P_ICMP6, &icmp6(&cli6(), &srv6(), 136, d[1] as u8, &body)),
             }
         });
+        let ck4 = cookies.get(&key_of(&flow4(40000, 80))).copied().unwrap_or(0).wrapping_add(1);
+        let ck6 = cookies.get(&key_of(&flow6(40000, 80))).copied().unwrap_or(0).wrapping_add(1);
+        strict_sweep(rep, &format!("tcp-rst-synack-valid-ack-{}", tag), "flag values containing RST without PSH, SYN|ACK and SYN|ACK|URG etc. (no PSH) x payload {none, 1 byte, request} x {v4,v6}, acknowledging the flow's valid cookie", 512 * 3 * 2, "tcp", &|i| {
+            let d = unrank(i, &[512, 3, 2]);
+            let mut fl = d[0] as u16 & !F_PSH;
+            if fl & F_RST == 0 {
+                fl = (fl & (F_URG | F_ECE | F_CWR | F_NS)) | F_SYN | F_ACK;
+            }
+            let pl: &[u8] = [&b""[..], &b"x"[..], &b"GET / HTTP/1.1\r\n\r\n"[..]][d[1] as usize];
+            flow(d[2] == 1, 40000, 80).tcp(1000, if d[2] == 1 { ck6 } else { ck4 }, fl, pl)
+        });
         strict_sweep(rep, &format!("tcp-rst-synack-{}", tag), "all 512 flag values restricted to those containing RST or equal to SYN|ACK x payload {none, request} x {v4,v6} x ack {0, 12345}", 512 * 2 * 2 * 2, "tcp", &|i| {
             let d = unrank(i, &[512, 2, 2, 2]);
             let mut fl = d[0] as u16;
